@@ -148,6 +148,9 @@ class Repo:
         for q, fi in self.functions.items():
             if isinstance(fi.node, ast.FunctionDef) and N.distribute_ifexp_returns(fi.node):
                 self.normalised.setdefault("conditional returns", []).append(q)
+        pr = N.inline_new_properties(self)
+        if pr:
+            self.normalised["inlined new properties in"] = pr
         done = N.inline_new_helpers(self)
         if done:
             self.normalised["inlined helpers"] = done
